@@ -34,7 +34,7 @@ Inner == U(MaxDepth - 1)
 
 VARIABLE v
 Init == v \in Inner \cup (IF MaxDepth = 2 THEN Rootless(L0, TopKinds) ELSE {})
-Next == Depth(v) < MaxDepth /\ v' \in Expand(v, Inner, Width, RootSeqWidth, TopKinds, TopDCs)
+Next == Level(v) < MaxDepth /\ v' \in Expand(v, Inner, Width, RootSeqWidth, TopKinds, TopDCs)
 Spec == Init /\ [][Next]_v
 
 Perms == {f \in [LeafIds -> LeafIds] : \A a, b \in LeafIds : a # b => f[a] # f[b]}
@@ -65,7 +65,7 @@ RelabelLaw == \A f \in InjFns : RelabelLawF(f, MapNested(f, v))
 \* well-formedness (hashable set elements / dict keys, distinct keys) is preserved by ANY f,
 \* and a non-injective f can only lose leaves, never invent them
 WFLawF(m) == WellFormed(m) /\ BagCardinality(Leaves(m)) <= BagCardinality(Leaves(v))
-WFLaw == /\ WellFormed(v) /\ Depth(v) <= MaxDepth
+WFLaw == /\ WellFormed(v) /\ Level(v) <= MaxDepth
          /\ \A f \in AnyFns : WFLawF(MapNested(f, v))
 \* the as-built mapper keeps the shape law except through its named deviations
 AsBuiltShapeUnlessDev == \A f \in InjFns : Devs(v) # {} \/ Shape(MapNestedAsBuilt(f, v)) = Shape(v)
@@ -77,7 +77,7 @@ AllLaws ==
       lv == Leaves(v)
       nl == BagCardinality(lv)
   IN /\ ToBag(MapVisits(v)) = lv /\ ToBag(IterLeaves(v)) = lv
-     /\ WellFormed(v) /\ Depth(v) <= MaxDepth
+     /\ WellFormed(v) /\ Level(v) <= MaxDepth
      /\ \A f \in InjFns : LET m == MapNested(f, v)
                           IN /\ Shape(m) = sv
                              /\ Leaves(m) = BagMap(f, lv)
